@@ -1,7 +1,7 @@
 (* Extraction of the executable models (ExtrOcamlBasic only: bool, option,
    list, prod, unit, sumbool map to OCaml's; Z/N/positive stay inductive). *)
 From Coq Require Import Extraction ExtrOcamlBasic.
-From STS Require Import Model.Ranges Model.Chunk Model.Queue.
+From STS Require Import Model.Ranges Model.Chunk Model.Queue Model.LogM.
 Extraction Language OCaml.
 Set Extraction Optimize.
 Extraction "model.ml"
@@ -10,4 +10,5 @@ Extraction "model.ml"
   chunks_plain chunks_rec send_size fluff_of pack init_bstate payloads dropped
   tiles_from_b tiles_ranges_b all_le_b bin_split new_bin is_full
   push pop group_ready has_name find_group is_alloc le_order name_eqb name_ltb
-  OFIFO OLIFO OALPHA ONONE prio_sorted files_sorted qrun.
+  OFIFO OLIFO OALPHA ONONE prio_sorted files_sorted qrun
+  search line_matches parse_line line_recv line_sent walk no_sep split join.
